@@ -141,7 +141,8 @@ ChkMarg(e) ==
       indep == IndepSel(m, S)
   IN  (IF e.retok = 1 THEN {} ELSE {Fl("C25.sel", "returned_addresses_not_the_selected")})
       \cup
-      (IF e.consistent = 0 THEN {}      \* table not available (sampling depends on the selection): statistical clause only
+      (IF e.consistent = 0 /\ e.retok = 0 THEN {}      \* no table: the returned choices are already wrong (C25.sel)
+       ELSE IF e.consistent = 0 THEN {Fl("MACHINERY", "the sample of a key depends on the selection: no table w(s,u)")}
        ELSE IF ~wellformed THEN {Fl("C25.sel", "value_out_of_support")}
        ELSE IF ~func THEN {Fl("MACHINERY", "weight is not a function of the full sample")}
        ELSE IF Asg(m) \ present # {} THEN {Fl("C25.unbiased", "cell_never_sampled")}
